@@ -56,7 +56,7 @@ add(tok("lsn_neg_nonorth", "lsn", nonorth(SN), sign=-1.0), Q)
 add(dict(name="circ", kind="circular", options=dict(number_of_processors=1, nx_core=4, ny_total=8)), Q)
 # thorough-only members
 add(tok("usn", "usn", SN, options=dict(ny_inner_divertor=3, ny_sol=8, ny_outer_divertor=5)), Q)
-add(tok("udn", "udn", DN))
+add(tok("udn", "udn", DN), Q)
 add(tok("ldn", "ldn", DN))
 add(tok("udn2", "udn2", DN))
 add(tok("cdn_neg", "cdn", CDN, sign=-1.0))
@@ -73,6 +73,9 @@ add(tok("lsn_upper_outer", "lsn", SN, options=dict(start_at_upper_outer=True)))
 add(tok("udn_m", "udn_m", DN, mirror=True))
 add(tok("udn_uo", "udn", DN, options=dict(start_at_upper_outer=True)))
 add(tok("cdn_uo", "cdn", CDN, options=dict(start_at_upper_outer=True)))
+# unusual inputs that particular defects need
+add(tok("lsn_nonorth_np2", "lsn", nonorth(SN), options=dict(number_of_processors=2)), Q)
+add(tok("lsn_psi0", "lsn", SN, psi_offset=-0.764, options=dict(psi_pf_lower=0.0)), Q)
 add(dict(name="circ_big", kind="circular", options=dict(number_of_processors=1, nx_core=6, ny_total=16, q_coefficients=[1.5, 0.5, 2.0])))
 
 
